@@ -1,4 +1,5 @@
 import Ladim.Model.Sample
+import Ladim.Model.Vertical
 /-
 L1 — `ladim/ROMS.py` `Grid`: subgrid limits, the valid region, land masks at u- and v-points,
 and the nearest-cell look-ups `metric`, `depth`, `atsea`, `ingrid`.
@@ -79,5 +80,61 @@ def readVel (raw : Field3) (scale : Option Rat) (mask : Field2) : Field3 :=
   raw.map fun plane =>
     (plane.zip mask).map fun (r, mr) =>
       (r.zip mr).map fun (x, m) => (match scale with | some s => s * x | none => x) * m
+
+/-! ### the ROMS set-up as a whole: files → grid and sampler inputs -/
+
+/-- what a ROMS grid/forcing file provides (whole grid, file index order) -/
+structure RomsFile where
+  h : Field2            -- [eta_rho][xi_rho]
+  mask : Field2
+  dx : Field2           -- 1/pm
+  hc : Rat
+  CsR : List Rat
+  vtransform : Nat
+  deriving Repr
+
+/-- `z_r = sdepth(H, hc, Cs_r)`: `[k][j][i]` -/
+def zRho (vt : Nat) (H : Field2) (hc : Rat) (Cs : List Rat) : Field3 :=
+  let N := Cs.length
+  (List.range N).zip Cs |>.map fun (k, c) =>
+    H.map fun row => row.map fun h => levelDepth vt h hc (sRho N k : Rat) c
+
+/-- `Grid.__init__`: the subgrid window of the file -/
+def mkGrid (f : RomsFile) (sub : Option (Int × Int × Int × Int)) : Option GridM :=
+  let jmax0 : Int := f.h.length
+  let imax0 : Int := (f.h.headD []).length
+  match subgridLimits imax0 jmax0 sub with
+  | none => none
+  | some (i0, i1, j0, j1) =>
+    let H := slice2 f.h j0 j1 i0 i1
+    some { i0 := i0, i1 := i1, j0 := j0, j1 := j1, H := H, M := slice2 f.mask j0 j1 i0 i1,
+           dx := slice2 f.dx j0 j1 i0 i1, zr := zRho f.vtransform H f.hc f.CsR }
+
+/-- `_read_velocity`: the u-window `[:, Ju, Iu]`, `Iu = i0-1 … i1`, scaled and masked -/
+def windowU (g : GridM) (rawU : Field3) (scale : Option Rat) : Field3 :=
+  readVel (rawU.map (fun P => slice2 P g.j0 g.j1 (g.i0 - 1) g.i1)) scale (maskU g.M)
+
+/-- the v-window `[:, Jv, Iv]`, `Jv = j0-1 … j1` -/
+def windowV (g : GridM) (rawV : Field3) (scale : Option Rat) : Field3 :=
+  readVel (rawV.map (fun P => slice2 P (g.j0 - 1) g.j1 g.i0 g.i1)) scale (maskV g.M)
+
+/-- `_read_field`: the rho-window `[:, J, I]` -/
+def windowRho (g : GridM) (raw : Field3) : Field3 := raw.map (fun P => slice2 P g.j0 g.j1 g.i0 g.i1)
+
+/-- level column of the particle's own cell: `z2s(z_r, round(X) - i0, round(Y) - j0, Z)` -/
+def levelOf (g : GridM) (x y z : Rat) : Option (Int × Rat) :=
+  z2s g.zr (g.cellI x : Int) (g.cellJ y : Int) z
+
+/-- `Forcing.velocity` (spatial part) for one particle whose level column was fixed at
+    `(x0, y0)` by `Forcing.update`, sampled at `(x, y)`; `sign = -1` in reversed time -/
+def sampleVel (g : GridM) (U V : Field3) (sign : Rat) (x0 y0 z : Rat) (x y : Rat) : Option (Rat × Rat) := do
+  let (K, A) ← levelOf g x0 y0 z
+  let (u, v) ← sample3DUV U V (x - g.i0) (y - g.j0) K A
+  pure (sign * u, sign * v)
+
+/-- scalar forcing of one particle: the value of its own cell at level `K` -/
+def sampleScalar (g : GridM) (F : Field3) (x y z : Rat) : Option Rat := do
+  let (K, _) ← levelOf g x y z
+  nearest F (g.cellI x : Int) (g.cellJ y : Int) K
 
 end Ladim
